@@ -228,6 +228,8 @@ def judge_churn(scn):
             elif anyel is not None:
                 del cfg[str(anyel["bit"])]
         out = run_loads(b, cfg, scn.get("encoding"), hexb)
+        if out.kind in ("budget", "foreign"):
+            break        # C07's ground
         how = "one configuration object edited in place between decodes" if same_object else "a fresh configuration object each time"
         f, cls = judge_c08(b, out, _copy.deepcopy(cfg), enc, hexb, via=f"loads #{it + 1} of {n} ({how})")
         for v in f:
